@@ -101,6 +101,25 @@ if __name__ == "__main__":
         dst = os.path.join("/verif/seeded", sid)
         os.makedirs(dst, exist_ok=True)
         for f in os.listdir(out):
-            if f.endswith((".go", ".diff", ".json", ".ts", ".sol", ".ral")) and not f.startswith("foreign"):
+            if f.endswith((".go", ".diff", ".ts", ".sol", ".ral")) and not f.startswith("foreign"):
                 shutil.copy(os.path.join(out, f), dst)
+        meta = json.load(open(os.path.join(out, "meta.json")))
+        meta["id"] = sid
+        meta["breaks_property"] = meta.get("property")
+        meta["needs_to_manifest"] = meta.get("needs")
+        c = json.load(open(os.path.join(out, "confirm.json")))
+        meta["what_was_run_to_confirm"] = {
+            "in": "scratch worktree of /repo HEAD (removed afterwards)",
+            "steps": ["demo_cmd without the change -> passes: %s" % c.get("demo_without_change_passes"),
+                      "git apply patch.diff; module test suite (go test ./... plus the five p2p-dependent packages through the stripped-Run overlay) package results identical to unpatched HEAD: %s" % c.get("suite_same_as_baseline"),
+                      "demo_cmd with the change -> fails: %s" % c.get("demo_with_change_fails")],
+            "confirmed": c.get("confirmed")}
+        dl = os.path.join(out, "detect.log")
+        if os.path.exists(dl):
+            txt = open(dl).read()
+            try:
+                meta["check_result"] = json.loads(txt[txt.index("{"):])
+            except Exception:
+                meta["check_result"] = {"raw": txt[-500:]}
+        json.dump(meta, open(os.path.join(dst, "meta.json"), "w"), indent=1)
         print("kept", dst)
